@@ -87,7 +87,66 @@ func judged(c Case) *ev.Verdict {
 	return oracle(c)
 }
 
+// ---- one parsed type object registered in two root schemas that define another type differently
+
+// SCase: project P, and the same project with type number Vary pinned to its own example (`const: true`
+// instead of its rules), so that examples elsewhere that are judged through that type now violate it.
+// The type objects of P (parsed, registered and checked there) are registered again in the second root
+// schema: its verdict must be the verdict of the second project built from fresh objects - what a type
+// means is decided by the schema it is checked in, not by where it was checked first.
+type SCase struct {
+	P    *model.Project `json:"project"`
+	Vary int            `json:"vary"`
+}
+
+func sharedOracle(c SCase) *ev.Verdict {
+	p := c.P
+	if p == nil || p.Root == nil || len(p.Types) == 0 {
+		return nil
+	}
+	q := p.Clone()
+	t := &q.Types[c.Vary%len(q.Types)]
+	if t.Node == nil || t.Node.Lit == "" || t.Node.Kind == "null" {
+		ev.Excluded("shared-types", "the varied type is not a scalar")
+		return nil
+	}
+	t.Node.Rules = []model.Rule{model.R("const", model.Bool(true))}
+	t1, t2 := p.Text(nil), q.Text(nil)
+	if strings.Contains(t1.String(), "allOf") {
+		ev.Excluded("shared-types", "project uses allOf (compiled in place, C10 known finding)")
+		return nil
+	}
+	b1 := sut.Build(t1)
+	o1 := sut.ObserveBuilt(b1)
+	b2 := sut.BuildSharing(t2, b1)
+	shared := sut.ObserveBuilt(b2)
+	fresh := sut.Observe(t2)
+	if n := len(o1.Escapes) + len(shared.Escapes) + len(fresh.Escapes); n > 0 {
+		e := append(append(o1.Escapes, shared.Escapes...), fresh.Escapes...)[0]
+		return ev.V("shared:panic:"+e.Op+":"+e.Frame, "%s panicked: %s\n%s", e.Op, e.Value, t2)
+	}
+	if o1.Check == nil && fresh.Check != nil {
+		ev.NonTrivial("shared-types", t2.String())
+		ev.Class("shared-types", "accepted with the first definition, rejected with the second")
+		if ev.WantSample("shared-types") {
+			ev.Sample("shared-types", c)
+		}
+	}
+	if sut.CodeOf(shared.Check) != sut.CodeOf(fresh.Check) || (fresh.Check != nil && shared.Check.Message != fresh.Check.Message) {
+		return ev.V("shared-types:verdict-differs", "type objects that were registered and checked in a first root schema (where %s has other rules): Check() = %v; with fresh objects: %v\nfirst project:\n%s\nsecond project:\n%s", t.Name, shared.Check, fresh.Check, t1, t2)
+	}
+	return nil
+}
+
+func TestPropSharedTypes(t *testing.T) {
+	registerAll()
+	ev.Rapid(t, "shared-types", ev.N(2500, 15000), func(t *rapid.T) SCase {
+		return SCase{P: genProject(t), Vary: rapid.IntRange(0, 7).Draw(t, "vary")}
+	}, sharedOracle)
+}
+
 func registerAll() {
+	ev.Register("shared-types", sharedOracle)
 	ev.Register("projects", judged)
 	ev.Register("grid", oracle)
 	ev.Register("spellings", spellingOracle)
